@@ -220,7 +220,7 @@ async fn run_history(line: usize, hist: &Value, dir: &str) -> Value {
         if let Err(why) = mock.apply(&step, STEP_WAIT).await {
             stuck = format!("step {}: {}", i + 1, why);
         }
-        let need_sync = !matches!(step, Step::Drop(_) | Step::ListFail);
+        let need_sync = !matches!(step, Step::Drop(_) | Step::ListFail | Step::ListPart);
         let mut synced_at: Option<Instant> = None;
         let mut got;
         let mut ok;
